@@ -4,6 +4,7 @@ package eventstream
 
 func init() {
 	vRegister("vC20_stream", vC20_stream)
+	vRegister("vC20_membership", vC20_membership)
 }
 
 func vC20_drain(s Subscriber, got *[4]int, n *int) {
@@ -53,6 +54,45 @@ func vC20_stream() {
 	}
 	if c2 == 0 {
 		vCover("concurrent-missed")
+	}
+	vCover("end")
+}
+
+// sequential history against a membership model: K operations over two subscribers and one topic
+func vC20_membership() {
+	es := New().(*EventsStream)
+	subs := [2]Subscriber{es.AddSubscriber(), es.AddSubscriber()}
+	var member [2]bool
+	for k := 0; k < 4; k++ {
+		op := vNondetInt("op")
+		i := vNondetInt("sub")
+		vAssume(op >= 0 && op <= 2 && i >= 0 && i <= 1)
+		switch op {
+		case 0:
+			es.Subscribe(subs[i], "t")
+			member[i] = true
+			vCover("subscribe")
+		case 1:
+			es.Unsubscribe(subs[i], "t")
+			member[i] = false
+			vCover("unsubscribe")
+		case 2:
+			es.Publish("t", 100+k)
+			for j := 0; j < 2; j++ {
+				n := 0
+				last := 0
+				for m := range subs[j].Iterator() {
+					n++
+					last = m.Payload().(int)
+				}
+				if member[j] {
+					vAssert(n == 1 && last == 100+k, "a subscribed subscriber receives a published event exactly once")
+					vCover("delivered")
+				} else {
+					vAssert(n == 0, "a subscriber that is not subscribed receives nothing")
+				}
+			}
+		}
 	}
 	vCover("end")
 }
